@@ -85,7 +85,9 @@ def fill_markdown(
             return frontmatter if frontmatter.endswith("\n") else frontmatter + "\n"
 
     if dedent_input:
-        markdown_text = dedent(markdown_text).strip()
+        # With CRLF line ends an empty line is "\r", which `dedent` takes for an unindented
+        # line. (Behind frontmatter the line ends are LF already, see `split_frontmatter`.)
+        markdown_text = dedent(markdown_text.replace("\r\n", "\n")).strip()
 
     markdown_text = markdown_text.strip() + "\n"
 
